@@ -95,3 +95,54 @@ PROPS["C19"] = dict(
        dict(bin="c19", args=["--only", "session"], timeout=300, name="c19-session", serial=True)],
     min_evaluations={"quick": 500, "thorough": 5000},
 )
+
+PROPS["C07"] = dict(
+    title="No byte stream from a peer can crash rzmq or make it buffer without bound",
+    rule="(engine) man-in-the-middle on live engine-pair handshakes and data exchanges for NULL/PLAIN/CURVE/NOISE_XX x victim role x "
+         "MAXMSGSIZE {-1,0,64,1Mi}: a quarter of the chunks delivered to the victim are mutated (bit flip, truncate, length-field "
+         "extremes {0,255,256,2^31,2^63,2^64-1}, duplicate, junk injection, invalid UTF-8, reorder, random bytes) under random read "
+         "segmentation, plus hostile data-phase streams (>255 MORE frames, extreme headers, command garbage, reserved flag bits, "
+         "trickled frames at the limit); after every engine call: panic hook (process-wide) and buffer_len bound. (limits) frames of "
+         "limit-1/limit/limit+1 bytes against all six decoder entry points. (session) a hostile raw peer beside a healthy PUSH on a real "
+         "PULL over tcp/ipc with the C01 oracle on the healthy stream. (pacing) silent / greeting-then-silent / drip-feeding peers against "
+         "HANDSHAKE_IVL=500 ms, and MAX_CONNECTIONS slot release. distinct = (layer, config, mutation list / stream).",
+    assumptions=["a panic is attributed to rzmq when its location or backtrace runs through /repo/core or xs_foundation",
+                 "pacing bound: disconnected within 3*HANDSHAKE_IVL+1 s"],
+    shards=lambda tier, seed: sharded("c07", _n(tier, 8, 16), _n(tier, 300, 2400))
+    + [dict(bin="c07", args=["--only", "limits"], timeout=300, name="c07-limits")]
+    + sharded("c07", _n(tier, 4, 8), _n(tier, 300, 1200), extra=["--only", "session"], name="c07-session")
+    + sharded("c07", 5, 120, extra=["--only", "pacing"], name="c07-pacing"),
+    min_evaluations={"quick": 1000, "thorough": 10000},
+)
+
+PROPS["C04"] = dict(
+    title="What a connection delivers depends on the bytes sent, not on read boundaries",
+    rule="a raw tcp/ipc peer plays a static transcript (v3 NULL, v3 PLAIN in rzmq's dialect, v2; peer as client or as server) = handshake "
+         "bytes + 1..6 data messages (single/multipart, some > 255 bytes) against a real rzmq PULL/ROUTER/SUB listener or connector, once "
+         "per segmentation: one write, handshake|data, every cut position in [handshake_end-12, handshake_end+12], byte-at-a-time, random "
+         "multi-cuts (writes separated by short pauses so that write boundaries become read boundaries); for CURVE/NOISE_XX a facade engine "
+         "answers the rzmq connector and the harness writes the server's final READY together with the first data records. Oracle: "
+         "recv_multipart() sequence == data messages of the transcript. distinct = (transcript kind, socket, role, transport, backend, segmentation).",
+    assumptions=["tcp/ipc write boundaries usually, not always, become read boundaries; the hook counter sca.hs.deliver_in_handshake records how often a data frame really shared a read with handshake bytes",
+                 "io_uring backend shards run from the 'uring' build flavour"],
+    shards=lambda tier, seed: sharded("c04", _n(tier, 12, 16), _n(tier, 300, 1800))
+    + sharded("c04", _n(tier, 4, 8), _n(tier, 300, 1800), flavour="uring", extra=["--uring", "1"], name="c04-uring"),
+    min_evaluations={"quick": 100, "thorough": 1000},
+)
+
+PROPS["C08"] = dict(
+    title="A receiver never sleeps while a message is queued for it (no lost wake-ups)",
+    rule="(rpq) short histories on the real ReadyPipeQueue: 1..4 producers (one pipe each) x 3..50 unique items, pipe capacity 1..2, ready-list "
+         "capacity {1,2,4,16}, enqueue via async send / try_send / try_send_batch / mixed, 1..2 consumers mixing pop, try_pop and pops cancelled "
+         "at their n-th Pending, optional pipe deregistration mid-stream, current-thread / 2 / 4 worker runtimes, seeded perturbation (spin, "
+         "yield, sleep) at 12 schedule points between the individual channel-write / counter-update / arm steps. Oracle: popped multiset == "
+         "accepted multiset, per-pipe order, no duplicates, and at quiescence queued_count == reserved_count == channel occupancy; a consumer "
+         "asleep while a pipe holds items and the ready list is empty is a lost wake-up. (notify) a gate at the point between check and "
+         "notified() in LoadBalancer::wait_for_connection and WaitGroup::wait holds the waiter while the condition is made true; the waiter "
+         "must complete. distinct = (config, seed).",
+    assumptions=["interleavings are sampled with widened windows, not enumerated; evidence counts distinct hook-hit orders sampled",
+                 "stuck detection uses a 1.5 s no-progress window only after which the (stable) structural predicate is evaluated"],
+    shards=lambda tier, seed: sharded("c08", _n(tier, 12, 16), _n(tier, 180, 900))
+    + [dict(bin="c08", args=["--only", "notify"], timeout=120, name="c08-notify")],
+    min_evaluations={"quick": 500, "thorough": 5000},
+)
